@@ -61,15 +61,20 @@ def check(scn, H, view=None):
             if st['first']:
                 v.stats['continuation_boundaries'] += 1
             exp_w = 0.0 if held else w_adv
-            sc = max(abs(w[k - 1]), abs(a[k - 1] * dt))
+            th_prev, w_prev = th[k - 1], w[k - 1]
+            if st.get('state_in'):
+                # position / speed assigned by the user since the last run
+                th_prev = st['state_in'].get('th', th_prev)
+                w_prev = st['state_in'].get('w', w_prev)
+            sc = max(abs(w_prev), abs(a[k - 1] * dt))
             if not close(w[k], exp_w, scale=sc):
                 viol('speed-update', k, recorded=w[k], expected=exp_w,
-                     prev_speed=w[k - 1], prev_acc=a[k - 1], dt=dt,
+                     prev_speed=w_prev, prev_acc=a[k - 1], dt=dt,
                      held=held, undecided=st['und'])
-            exp_th = th[k - 1] + w_adv * dt
-            sc = max(abs(th[k - 1]), abs(w_adv * dt))
+            exp_th = th_prev + w_adv * dt
+            sc = max(abs(th_prev), abs(w_adv * dt))
             if not close(th[k], exp_th, scale=sc):
                 viol('position-update', k, recorded=th[k], expected=exp_th,
-                     prev_position=th[k - 1], advanced_speed=w_adv, dt=dt,
+                     prev_position=th_prev, advanced_speed=w_adv, dt=dt,
                      held=held)
     return out, v.stats
